@@ -129,7 +129,7 @@ func runC10(tier string) int {
 func runC07(tier string) int {
 	quick := tier == "quick"
 	col := ev.NewCollector("C07", tier, "exploration")
-	dl := ev.NewDeadline(ev.EnvDur("VERIF_BUDGET", map[bool]time.Duration{true: 150 * time.Second, false: 20 * time.Minute}[quick]))
+	dl := ev.NewDeadline(ev.EnvDur("VERIF_BUDGET", map[bool]time.Duration{true: 300 * time.Second, false: 20 * time.Minute}[quick]))
 	engines := []string{"mem-skiplist", "pebble"}
 	maxLen := 3
 	if quick {
